@@ -1168,10 +1168,13 @@ fn stage_exhaustive(args: &Args) -> Vec<TaskOut> {
     let red = alphabet(false);
     let nfull = full.len();
     let mut tasks: Vec<(usize, Vec<Sym>, bool)> = vec![];
+    // quick: the three cheap configurations (fast path, catable q1, q2 + magic) with the full
+    // alphabet up to length 4 and the fast path with the reduced alphabet at length 5; thorough: all five configurations in both modes
+    let sel: Option<usize> = std::env::var("BV_CFG").ok().and_then(|x| x.parse().ok());
     let ncfg_full = if thorough { cfgs.len() } else { 3 };
-    for c in 0..ncfg_full { for a in 0..nfull { tasks.push((c, vec![full[a]], true)); } }
-    let ncfg_red = if thorough { cfgs.len() } else { 2 };
-    for c in 0..ncfg_red { for a in 0..red.len() { tasks.push(([0usize, 3, 2, 1, 4][c], vec![red[a]], false)); } }
+    for c in 0..ncfg_full { if sel.map_or(true, |k| k == c) { for a in 0..nfull { tasks.push((c, vec![full[a]], true)); } } }
+    let ncfg_red = if thorough { cfgs.len() } else { 1 };
+    for c in 0..ncfg_red { if sel.map_or(true, |k| k == c) { for a in 0..red.len() { tasks.push((c, vec![red[a]], false)); } } }
     let n = tasks.len();
     let tasks = std::sync::Arc::new(tasks);
     par_tasks(n, move |i| {
